@@ -368,6 +368,66 @@ int main() {
       Manifold r = m.Refine(2);
       observe(r);
       usable(id, "Smooth", m);
+    } else if (kind == "W") {  // per-component non-finite injection: W id entry vertexSel comp value
+      const std::string entry = c.next();
+      const int sel = (int)c.u(), comp = (int)c.u();
+      const double val = c.d();
+      const Manifold src = Manifold::Sphere(1.0, 8);
+      const size_t nv = src.NumVert();
+      const size_t target = sel == 0 ? 0 : (sel == 1 ? nv / 2 : nv - 1);
+      stage(entry.c_str());
+      Manifold m;
+      if (entry == "Warp") {
+        size_t k = 0;
+        m = src.Warp([&](vec3& v) { if (k++ == target) v[comp] = val; });
+      } else if (entry == "WarpBatch") {
+        m = src.WarpBatch([&](VecView<vec3> vs) { vs[std::min(target, (size_t)vs.size() - 1)][comp] = val; });
+      } else if (entry == "Transform") {      // comp 0..11: matrix entry (column-major 3x4), sel ignored
+        mat3x4 mt(mat3(la::identity), vec3(0.0));
+        mt[(comp + 4 * sel) / 3][(comp + 4 * sel) % 3] = val;
+        m = src.Transform(mt);
+      } else if (entry == "Translate") { vec3 a(0.5); a[comp] = val; m = src.Translate(a); }
+      else if (entry == "Scale") { vec3 a(1.5); a[comp] = val; m = src.Scale(a); }
+      else if (entry == "Rotate") { vec3 a(10.0); a[comp] = val; m = src.Rotate(a.x, a.y, a.z); }
+      else if (entry == "Mirror") { vec3 a(1.0); a[comp] = val; m = src.Mirror(a); }
+      else if (entry == "MeshGL64" || entry == "MeshGL") {   // comp 3 = an extra property channel
+        Manifold withProp = src.SetProperties(1, [](double* o, vec3 p, const double*) { o[0] = p.x; });
+        if (entry == "MeshGL64") { MeshGL64 g = withProp.GetMeshGL64(); const size_t tv = sel == 0 ? 0 : (sel == 1 ? g.NumVert() / 2 : g.NumVert() - 1); g.vertProperties[tv * g.numProp + comp] = val; m = Manifold(g); }
+        else { MeshGL g = withProp.GetMeshGL(); const size_t tv = sel == 0 ? 0 : (sel == 1 ? g.NumVert() / 2 : g.NumVert() - 1); g.vertProperties[tv * g.numProp + comp] = (float)val; m = Manifold(g); }
+      } else if (entry == "SetPropertiesCb") {
+        size_t k = 0;
+        m = src.SetProperties(3, [&](double* o, vec3 p, const double*) { o[0] = p.x; o[1] = p.y; o[2] = p.z; if (k++ == 3 * target) o[comp] = val; });
+      } else if (entry == "LevelSetSdf") {
+        size_t k = 0;
+        const size_t hit = sel == 0 ? 0 : (sel == 1 ? 500 : 100000);
+        m = Manifold::LevelSet([&](vec3 p) { return (k++ == hit) ? val : 0.8 - la::length(p); }, Box({-1, -1, -1}, {1, 1, 1}), 0.25);
+      } else if (entry == "LevelSetBounds") {
+        vec3 lo(-1.0), hi(1.0);
+        if (sel == 0) lo[comp] = val; else hi[comp] = val;
+        m = Manifold::LevelSet([](vec3 p) { return 0.8 - la::length(p); }, Box(lo, hi), 0.25);
+      } else if (entry == "ExtrudePoly" || entry == "RevolvePoly" || entry == "TriangulatePoly" || entry == "CrossSectionPoly") {
+        Polygons ps = {{{0.2, 0.1}, {1.0, 0.1}, {1.0, 1.0}, {0.6, 1.3}, {0.2, 1.0}}};
+        const size_t tv = sel == 0 ? 0 : (sel == 1 ? 2 : 4);
+        ps[0][tv][comp % 2] = val;
+        if (entry == "ExtrudePoly") m = Manifold::Extrude(ps, 1.0);
+        else if (entry == "RevolvePoly") m = Manifold::Revolve(ps, 8);
+        else if (entry == "TriangulatePoly") { auto tr = Triangulate(ps); m = Manifold::Extrude(ps, 1.0); (void)tr; }
+        else { CrossSection cs(ps); CrossSection o = cs.Offset(0.1) + CrossSection::Square({1, 1}); m = Manifold::Extrude(o.ToPolygons(), 1.0); }
+      }
+      const int st = (int)m.Status();
+      const size_t nt = m.NumTri();
+      int finite = 1;
+      MeshGL64 g = m.GetMeshGL64();
+      for (size_t v = 0; v < g.NumVert(); ++v)
+        for (int k : {0, 1, 2}) if (!std::isfinite(g.vertProperties[v * g.numProp + k])) finite = 0;
+      if (!std::isfinite(m.Volume()) || !std::isfinite(m.SurfaceArea())) finite = 0;
+      // a consumer must survive whatever came out
+      stage("W.followup");
+      const Manifold cube = Manifold::Cube(vec3(1.0), true);
+      Manifold u = m + cube, d = cube - m, x = m ^ cube;
+      observe(u); observe(d); observe(x);
+      const int lost = (st != 0 && ((int)u.Status() == 0 || (int)d.Status() == 0 || (int)x.Status() == 0)) ? 1 : 0;
+      printf("O %s %d %zu | W:%s finite=%d lost=%d\n", id.c_str(), st, nt, entry.c_str(), finite, lost);
     } else if (kind == "F") {
       int prec = (int)c.u();
       if (prec == 32) facesCase<float, uint32_t>(id, c); else facesCase<double, uint64_t>(id, c);
